@@ -203,6 +203,14 @@ def run_check(fn, pid: str, tier: str, level: str, replay: str | None = None) ->
                 return ctx.finish()
             except Exception:
                 traceback.print_exc()
+        if ctx.violations > 0:
+            # violations were already found and reported; what the harness tripped over afterwards is most likely a consequence of the
+            # same broken behaviour.  The verdict stands (exit 1); the crash is recorded in the evidence.
+            try:
+                ctx.cov["harness_exception_after_violations"] = f"{type(e).__name__}: {str(e)[:200]}"
+                return ctx.finish()
+            except Exception:
+                traceback.print_exc()
         print(f"MACHINERY-ERROR [{pid}]: unexpected exception in the harness", file=sys.stderr, flush=True)
         return 2
     finally:
